@@ -265,10 +265,10 @@ theorem keepsM_loopIterate (y : Bytes) (P : Prims) (loc : Loc) (tr : Bool) (var 
   unfold restoreLoopVars
   exact keepsM_bind (keepsM_setVar y _ _ h2) (fun _ => keepsM_setVar y _ _ h1)
 
-theorem keepsM_loopRun (y : Bytes) (P : Prims) (path : Bytes) (loc : Loc) (tr : Bool) (var : Bytes) (e : Expr)
+theorem keepsM_loopRun {budget : Int} (y : Bytes) (P : Prims) (path : Bytes) (loc : Loc) (tr : Bool) (var : Bytes) (e : Expr)
     (mods : LoopMods) {bodyM : M Status} (hb : y ≠ var → y ≠ nmForloop → KeepsM y bodyM) (tooMany : Bool)
     (elseM : Option (M Status)) (he : ∀ m, elseM = some m → KeepsM y m) :
-    KeepsM y (loopRun P path loc tr var e mods bodyM tooMany elseM) := by
+    KeepsM y (loopRun budget P path loc tr var e mods bodyM tooMany elseM) := by
   unfold loopRun
   refine keepsM_wrapAt _ _ (keepsM_bind (keepsM_getEnv y) (fun env => keepsM_bind (keepsM_ofRes y _) (fun v =>
     keepsM_bind (keepsM_ofRes y _) (fun items0 => keepsM_bind (keepsM_intModifier y _ _ _) (fun off =>
@@ -645,16 +645,16 @@ theorem sameState_intModifier (P : Prims) (e : Option Expr) (loc : Loc) : SameSt
 /-- a loop node, reduced to what it does after its head (collection, items, offset, limit) has
     been evaluated — which changes nothing: for every possible item list `items`, the dispatch on
     it from the same state -/
-theorem loopRun_post (P : Prims) (path : Bytes) (loc : Loc) (tr : Bool) (var : Bytes) (e : Expr) (mods : LoopMods)
+theorem loopRun_post {budget : Int} (P : Prims) (path : Bytes) (loc : Loc) (tr : Bool) (var : Bytes) (e : Expr) (mods : LoopMods)
     (bodyM : M Status) (elseM : Option (M Status)) (s : RS) (Q : SK → Env → Prop)
     (h : ∀ items, AllRet (EnvQ Q) (loopDispatch P loc tr var mods.cols bodyM elseM items s)) :
-    AllRet (EnvQ Q) (loopRun P path loc tr var e mods bodyM false elseM s) := by
+    AllRet (EnvQ Q) (loopRun budget P path loc tr var e mods bodyM false elseM s) := by
   unfold loopRun
   refine AllRet.wrapAt ?_
   have hpre : SameState (do
       let env ← M.getEnv
       let v ← M.ofRes (evaluate P env e)
-      let items0 ← M.ofRes (loopItems v)
+      let items0 ← M.ofRes (loopItems budget v)
       let off ← intModifier P mods.offset loc
       let lim ← intModifier P mods.limit loc
       pure (selectItems mods.reversed off lim items0) : M (List GoVal)) :=
